@@ -69,6 +69,9 @@ FAMILIES = {
     # eight slots, at most 5 non-empty cells, quantities 0..3
     # 30/31-day gaps that a held position can straddle, at base dates incl. the end of a leap year
     'edge_q': dict(cfg=dict(dayset=11, maxcells=4), variants='none', bases=3),
+    # two-digit holdings around a 3-for-1 split / 1-for-3 consolidation: decimal residue of non-terminating ratios
+    'residue_q': dict(cfg=dict(dayset=3, buy=(0, 1, 10), sell=(0, 1, 4, 28), splits=(2,), maxsplits=1, maxcells=4, timings=BOTH),
+                      variants='none', bases=1),
     'core_t': dict(cfg=dict(dayset=2, buy=(0, 1, 2, 3), sell=(0, 1, 2, 3), maxcells=5), variants='none', bases=6),
     'split_t': dict(cfg=dict(dayset=1, splits=(1, 2, 3, 4), maxsplits=2, maxcells=5, timings=BOTH), variants='none', bases=2),
     # line order / fill splitting / ticker case / dividend lines: same ledgers, many renderings
